@@ -64,7 +64,19 @@ fn rnd_range(rng: &mut Rng, len: usize) -> Rg {
 
 fn rnd_script(rng: &mut Rng, max: usize) -> Vec<Step> {
     let l = rng.below(max as u64 + 3) as usize;
-    (0..l).map(|_| if rng.chance(1, 2) { Step::F } else { Step::B }).collect()
+    (0..l)
+        .map(|_| match rng.below(9) {
+            0..=3 => Step::F,
+            4..=7 => Step::B,
+            _ => {
+                if rng.chance(1, 2) {
+                    Step::N(1 + rng.below(2) as u8)
+                } else {
+                    Step::NB(1 + rng.below(2) as u8)
+                }
+            }
+        })
+        .collect()
 }
 
 /// an operation drawn with a bias towards wrap, eviction, boundary and out-of-range arguments
